@@ -2,7 +2,7 @@
 from harness.common import Case, hx, tx_to_line, line_to_tx, toks_str, Fields
 from harness import gen as G
 
-KINDS = 'ms'
+KINDS = 'gms'
 RULE = ('transactions of 1..8 inputs and 0..8 outputs with arbitrary outpoints, sequences, versions, locktimes and existing scriptSigs '
         '(legacy/segwit/mixed flags); every input index; script codes 0..70000 bytes incl. the CompactSize boundaries; the six defined hash '
         'types plus undefined ones; SINGLE with and without a matching output. non-trivial: >= 2 inputs and (hash type != ALL or index > 0 '
@@ -48,7 +48,7 @@ def cases(ctx):
             for ht in hts:
                 ctx.count(f'ht-{ht:02x}')
                 if ht & 0x1f == 3: ctx.count('single-' + ('in' if i < len(tx.outputs) else 'out-of-range'))
-                yield Case(f'dig_legacy {line} {i} {toks_str(code)} {ht}', 'ms',
+                yield Case(f'dig_legacy {line} {i} {toks_str(code)} {ht}', 'gms' if len(line) + sum(len(str(t)) for t in code) < 20000 else 'ms',
                            nontrivial=nontrivial(tx, i, ht, [code]), tag='legacy')
     # the same object after use and in-place change through public attributes (stale caches / leaked state)
     for _ in range(ctx.n(50, 2500)):
@@ -66,8 +66,12 @@ def cases(ctx):
                    model=lambda ans, l=line1, r=rest: (f'm:dig_legacy {l} {r}', ans), spec=lambda ans, l=line1, r=rest: (f's:dig_legacy {l} {r}', ans))
     # malformed stream: a null-hash input next to the signed one (the code raises), index out of range
     tx = G.gen_tx(rng, names, kind='coinbase', max_in=3, max_out=2, big=False)
-    yield Case(f'dig_legacy {tx_to_line(tx)} 0 {toks_str(["OP_1"])} 1', 'm', nontrivial=True, tag='null-input', domain=False)
-    yield Case(f'dig_legacy {tx_to_line(tx)} 9 {toks_str(["OP_1"])} 1', 'm', nontrivial=True, tag='bad-index', domain=False)
+    yield Case(f'dig_legacy {tx_to_line(tx)} 0 {toks_str(["OP_1"])} 1', 'gm', nontrivial=True, tag='null-input', domain=False)
+    yield Case(f'dig_legacy {tx_to_line(tx)} 9 {toks_str(["OP_1"])} 1', 'gm', nontrivial=True, tag='bad-index', domain=False)
+    tx = G.gen_tx(rng, names, kind='legacy', max_in=3, max_out=1, min_out=1, big=False)
+    for ht in (3, 0x83):       # SINGLE without a matching output: ValueError from the code, the model and the generated code
+        yield Case(f'dig_legacy {tx_to_line(tx)} {len(tx.outputs) + 1} {toks_str(["OP_1"])} {ht}', 'gm', nontrivial=True, tag='single-refused', domain=False)
+    yield Case(f'dig_legacy {tx_to_line(tx)} 0 {toks_str(["OP_1"])} {2 ** 31}', 'gm', nontrivial=True, tag='bad-hashtype', domain=False)
 
 
 def impl(op, a, ctx):
